@@ -416,6 +416,54 @@ def gen_c13(k, sname, ops, thorough, max_steps, concrete_start=False):
                 body.append("    }")
             body += ["    _ => {}", "}"]
             out.append(("%s_%s_skip_twice" % (base, kind), 8, body))
+    # ---- complete traversals under every skip schedule, schedule enumerated (concrete), payload symbolic:
+    #      a symbolic skip decision followed by more than one further call does not finish (measured > 10 min), a concrete
+    #      schedule takes seconds; one harness per (traversal, start, schedule) - several blocks in one harness scale badly
+    vpre = [l.replace(", 11);", ", kani::any());").replace(", 12);", ", kani::any());").replace(", 13);", ", kani::any());") for l in pre]
+    for kind, ty, ref in (("dfs", "DfsPre", m.dfs), ("edge", "DfsEdge", m.dfs_edges), ("bfs", "Bfs", m.bfs)):
+        for s0 in nodes:
+            L = len(ref(s0, set()))
+            positions = list(range(L))
+            schedules = []
+            for r in range(0, (len(positions) if thorough else min(1, len(positions))) + 1):
+                for sub in itertools.combinations(positions, r):
+                    schedules.append({p_: 1 for p_ in sub})
+            for p_ in positions:
+                schedules.append({p_: 2})          # skip_subtree called twice in a row
+            for sched in schedules:
+                skips = set(sched)
+                seq = ref(s0, skips)
+                body = list(vpre)
+                body.append("let mut it = %s::new(&t, %d);" % (ty, s0))
+                rem0 = len(ref(s0, set()))
+                body.append("let h = it.size_hint(); assert!(h.0 <= %d && h.1.map_or(true, |u| u >= %d));" % (rem0, rem0))
+                for c in range(len(seq) + 1):
+                    exp = seq[c] if c < len(seq) else None
+                    body.append("let i = it.next(&t);")
+                    body += item_assert(kind, "i", exp)
+                    if exp is not None and c in sched:
+                        body += ["it.skip_subtree();"] * sched[c]
+                    upto = {q_ for q_ in skips if q_ <= c}
+                    remc = max(len(ref(s0, upto)) - (c + 1), 0)
+                    body.append("let h = it.size_hint(); assert!(h.0 <= %d && h.1.map_or(true, |u| u >= %d));" % (remc, remc))
+                tag = "".join("%d%s" % (p_, "x" * n_) for p_, n_ in sorted(sched.items())) or "none"
+                if not thorough and len(seq) >= 3 and m.num_children(s0) >= 2:
+                    continue      # four calls with two entries on the work list: ~300 s and out of memory at 14 GB (measured)
+                out.append(("%s_%s_from%d_skips_%s" % (base, kind, s0, tag), 8, body))
+    # ---- index-order iterators and num_terminals against the direct computation (loops over the arena only)
+    terms = sorted(i for i in m.nodes if m.num_children(i) == 0)
+    decs = sorted(i for i in m.nodes if m.num_children(i) > 0)
+    body = list(pre) + ["assert!(t.num_terminals() == %d);" % len(terms), "assert!(t.len() == %d);" % len(m.nodes),
+                        "assert!(t.node_indices().count() == %d);" % len(m.nodes),
+                        "assert!(t.terminal_indices().count() == %d);" % len(terms),
+                        "assert!(t.decision_indices().count() == %d);" % len(decs),
+                        "assert!(t.node_indices().next() == Some(%d));" % nodes[0],
+                        "assert!(t.node_indices().next_back() == Some(%d));" % nodes[-1],
+                        "assert!(t.terminal_indices().next() == Some(%d));" % terms[0],
+                        "assert!(t.terminal_indices().next_back() == Some(%d));" % terms[-1],
+                        "assert!(t.decision_indices().next() == %s);" % opt(decs[0] if decs else None),
+                        "assert!(t.edge_iter().count() == %d);" % (len(m.nodes) - 1)]
+    out.append((base + "_index_iters", 8, body))
     return out
 
 
@@ -452,6 +500,8 @@ def select(prop, tier):
                     # do not finish in 10 min: outside the bound
                     if "_edge_step2" in h[0] or "_edge_skip_twice" in h[0]:
                         continue
+                    if not thorough and "_step2" in h[0]:
+                        continue      # 160-320 s each and memory-hungry: thorough tier only
                     hs.append(h)
     return hs
 
